@@ -99,6 +99,9 @@ func scenario(c Case, dir string, scale int) string {
 			}
 		case "after-finish":
 			tk.Commands = []string{fmt.Sprintf("printf 'Q:%d\\n' >> %s", i, log)}
+		case "ctx-up", "ctx-before":
+			// the long command belongs to the task's execution context
+			tk.Commands = []string{fmt.Sprintf("printf 'K:%d\\n' >> %s", i, log)}
 		default:
 			tk.Commands = []string{long, fmt.Sprintf("printf 'L:%d\\n' >> %s", i, log)}
 		}
@@ -115,8 +118,19 @@ func scenario(c Case, dir string, scale int) string {
 	var ropts []runner.Opts
 	if c.Ctx {
 		// the context's own commands are commands like any other: none may start once a Cancel call has returned
-		ropts = append(ropts, runner.WithContexts(map[string]*runner.ExecutionContext{"cx": runner.NewExecutionContext(nil, "", variables.NewVariables(), nil, nil,
-			[]string{fmt.Sprintf("printf 'XB\\n' >> %s", log)}, []string{fmt.Sprintf("sleep 0.03; printf 'XA\\n' >> %s", log)})}))
+		var up []string
+		before := []string{fmt.Sprintf("printf 'XB\\n' >> %s", log)}
+		// a context command that takes a second (whether a cancel cuts it short or waits for it is not stated), with
+		// further commands behind it
+		slow := fmt.Sprintf("printf 'XS\\n' >> %s; sh -c 'echo $$ >> %s; exec sleep 1'; printf 'XE\\n' >> %s", log, pids, log)
+		switch c.Phase {
+		case "ctx-up":
+			up = []string{slow, fmt.Sprintf("printf 'XU2\\n' >> %s", log)}
+		case "ctx-before":
+			before = []string{slow, fmt.Sprintf("printf 'XB2\\n' >> %s", log)}
+		}
+		ropts = append(ropts, runner.WithContexts(map[string]*runner.ExecutionContext{"cx": runner.NewExecutionContext(nil, "", variables.NewVariables(), up, nil,
+			before, []string{fmt.Sprintf("sleep 0.03; printf 'XA\\n' >> %s", log)})}))
 	}
 	r, err := runner.NewTaskRunner(ropts...)
 	if err != nil {
@@ -314,7 +328,11 @@ func scenario(c Case, dir string, scale int) string {
 			}
 		default:
 			start()
-			if !waitFor(func() bool { return len(readLines(pids)) == c.K }, bound) {
+			need := c.K
+			if c.Phase == "ctx-up" {
+				need = 1 // up runs once for all tasks of the context
+			}
+			if !waitFor(func() bool { return len(readLines(pids)) >= need }, bound) {
 				return fmt.Sprintf("setup: only %d of %d tasks reached the long command", len(readLines(pids)), c.K)
 			}
 			time.Sleep(time.Duration(c.DelayMs) * time.Millisecond)
@@ -556,10 +574,17 @@ func normalise(c Case) Case {
 	if c.K == 0 || c.Via == "condition" {
 		c.Stubborn = false
 	}
+	if c.Phase == "ctx-up" || c.Phase == "ctx-before" {
+		if c.K == 0 || c.Via == "condition" {
+			c.Phase = "command"
+		} else {
+			c.Ctx, c.Stubborn = true, false
+		}
+	}
 	return c
 }
 
-var phases = []string{"before-run", "before-hook", "command", "second-command", "burst", "after-finish"}
+var phases = []string{"before-run", "before-hook", "command", "second-command", "burst", "after-finish", "ctx-up", "ctx-before"}
 
 func genCase(rt *rapid.T) Case {
 	c := Case{
